@@ -190,16 +190,17 @@ def symptom(ev, expected):
 # strata: the generator features with a known defect are switched off in the core stratum and
 # switched on one at a time; a violation's signature is "<defective features of the case>/<symptom>"
 
-CORE_OFF = ["noroottypename", "nodupkey", "nodirid", "nofragdirs"]
-DEFECT_TAGS = {"root-typename": "roottypename", "dupkey": "dupkey", "dir-on-id": "dirid", "frag-dir": "fragdirs", "abstract": "abstract"}
+CORE_OFF = ["nodupkey", "nodirid", "nofragdirs"]
+DEFECT_TAGS = {"dupkey": "dupkey", "dir-on-id": "dirid", "frag-dir": "fragdirs", "abstract": "abstract", "rootnode": "rootnode"}
 STRATA = {
     # name: (features, share of the budget)
     "core": (CORE_OFF + ["oddids", "biglists", "richargs"], 0.5),
-    "roottypename": ([f for f in CORE_OFF if f != "noroottypename"], 0.06),
     "dupkey": ([f for f in CORE_OFF if f != "nodupkey"], 0.08),
     "dirid": ([f for f in CORE_OFF if f != "nodirid"], 0.08),
     "fragdirs": ([f for f in CORE_OFF if f != "nofragdirs"], 0.08),
     "abstract": (CORE_OFF + ["abstract", "richargs"], 0.2),
+    # queries through the Relay entry point node(id:) at the root
+    "rootnode": (CORE_OFF + ["rootnode"], 0.1),
 }
 
 
